@@ -332,6 +332,11 @@ class ProbeSet:
             if not gap:
                 cases.append(("iter-range-holes", [I("list", "iter", [P("str", "mode", "range")])]))
                 cases.append(("iter-range-holes-with-range", [I("list", "iter", [P("str", "mode", "range")]), I("path", "range")]))
+                # hole patterns of every kind: one missing integer, a hole next to the ends, many runs, negative, at the type limits
+                for hv in ((0, 1, 3), (0, 2), (-2, 0, 1), (125, 127), (-128, -126), (0, 1, 2, 4, 5, 6), (-128, 127), (1, 3, 5, 7, 9), (0, 1, 2, 3, 5)):
+                    s = simple_enum("", "i8", hv)
+                    s.attrs = [EAttr("et", items=[I("list", "iter", [P("str", "mode", "range")])]), EAttr("repr", "i8")]
+                    self.add("C13", f"iter-range-holes-shape:{'_'.join(map(str, hv))}", "reject", s)
             for name, items in cases:
                 s = mk(items)
                 if name == "literal-top":
